@@ -14,7 +14,11 @@ USR = 0b10000
 USER_KEYS = {'R.R%dusr' % i for i in range(13)} | {'R.SPusr', 'R.LRusr', 'R.PC', 'event_register', 'wfe', 'wfi', 'cplog', 'excl'}
 CPSR_USER_BITS = 0xF80F0000 | 0x0600FC00 | (1 << 9) | (1 << 5) | (1 << 24)   # NZCVQ, GE, IT, E, T, (J cannot be set by valid code paths here)
 FAULT_REGS = ('dfsr', 'dfar', 'hsr', 'hdfar', 'hpfar')
-VEC_OFF = {0b11011: (0x04,), 0b10011: (0x08,), 0b10111: (0x10,), 0b10110: (0x08,), 0b11010: (0x04, 0x08, 0x10, 0x14)}
+# exceptions an instruction executed in User mode can architecturally cause: Undefined Instruction, Supervisor Call, Data Abort, and (Non-secure,
+# Virtualization Extensions) their Hyp-routed forms / Hyp Trap. NOT Secure Monitor Call: SMC is UNDEFINED in User mode (B9.3.14), and the
+# only other ways into Monitor mode (external aborts with SCR.EA, IRQ/FIQ) are not caused by the instruction - so Monitor mode after a
+# User-mode step is a privilege escalation whatever the vector and SPSR look like.
+VEC_OFF = {0b11011: (0x04,), 0b10011: (0x08,), 0b10111: (0x10,), 0b11010: (0x04, 0x08, 0x10, 0x14)}
 
 
 def vector_bases(pre, cfg):
@@ -41,17 +45,19 @@ def judge(pre, post, exc, cfg):
         return (bad or 'stayed'), None
     # an exception must have been taken: privileged mode, PC at that mode's vector, SPSR.M == User
     offs = VEC_OFF.get(m)
+    if m == 0b10110:
+        return 'Monitor mode entered from a User-mode instruction (SMC is UNDEFINED in User mode)', None
     if offs is None:
         return 'entered mode %#x without an exception' % m, None
     base, mv, hv = vector_bases(pre, cfg)
-    vb = {0b10110: mv, 0b11010: hv}.get(m, base)
+    vb = {0b11010: hv}.get(m, base)
     if post['R.PC'] not in [(vb + o) & M32 for o in offs]:
         return 'mode %s entered but PC=%#x is not its vector' % (gen.MODE_NAME[m], post['R.PC']), None
     spsr = post['spsr_' + gen.MODE_NAME[m]]
     if (spsr & 31) != USR:
         return 'exception taken but SPSR.M=%#x does not record User' % (spsr & 31), None
     # only what that entry is specified to write may change
-    allowed = {'cpsr', 'spsr_' + gen.MODE_NAME[m], 'R.LR' + gen.MODE_NAME[m] if m != 0b11010 else 'elr_hyp', 'R.PC', 'scr'} | set(FAULT_REGS)
+    allowed = {'cpsr', 'spsr_' + gen.MODE_NAME[m], 'R.LR' + gen.MODE_NAME[m] if m != 0b11010 else 'elr_hyp', 'R.PC'} | set(FAULT_REGS)
     bad = {k: (pre[k], post[k]) for k in post if post[k] != pre.get(k) and k not in allowed and k not in USER_KEYS and not k.startswith('mem')}
     if bad:
         return 'exception entry changed other privileged state: %r' % bad, None
